@@ -75,12 +75,12 @@ theorem orientation_quarter_turn_is_clockwise :
     (rotatePillow (Img.ofRows 0 [[10, 20]]) (.turn 270 false)).1.rows = [[20], [10]] := by
   refine ⟨?_, ?_, ?_⟩ <;> decide +kernel
 
-/-- css-images-3 §6 defines `image-orientation`, `image-rendering` and `image-resolution` as inherited
-properties.  The regenerated `INHERITED` table has the last two but not `image_orientation`: an `<img>` (or a
-`content` / `list-style-image` / background image) under an element with `image-orientation: 90deg` is not
-rotated and keeps the un-rotated intrinsic size (known finding `image-orientation-not-inherited`). -/
-theorem image_orientation_not_inherited :
-    Gen.imagePropsInherited = [("image_orientation", false), ("image_rendering", true), ("image_resolution", true)] := by
+/-- REGRESSION (finding `image-orientation-not-inherited`, fixed by 8f3706e).  css-images-3 §6 defines
+`image-orientation`, `image-rendering` and `image-resolution` as inherited properties; the regenerated `INHERITED`
+table now lists all three (it lacked `image_orientation`: an `<img>` under an element with
+`image-orientation: 90deg` was not rotated). -/
+theorem image_properties_inherited :
+    Gen.imagePropsInherited = [("image_orientation", true), ("image_rendering", true), ("image_resolution", true)] := by
   rfl
 
 end Wp.C13.Witness
